@@ -97,6 +97,14 @@ let handle (toks : string list) : string =
     (* TxPool.validateTx: types.Sender(pool.signer, tx) *)
     let sg = pool_signer (parse_cfg cid hb eb) in
     render_signer sg ^ " | " ^ str_res (sender_signer keccak256 (ecrec_of (parse_table tbl)) sg (parse_tx t))
+  | ["json_tx"; a; b; c; d; e; f; g; h; i; j] ->
+    let pf t = if t = "M" then JAbsent else if t = "X" then JBad
+      else if String.length t >= 2 && String.sub t 0 2 = "S:" then JS (bytes_of_hex (String.sub t 2 (String.length t - 2)))
+      else failwith "jfield syntax" in
+    (match tx_of_json { j_nonce = pf a; j_price = pf b; j_gas = pf c; j_to = pf d; j_value = pf e; j_input = pf f;
+                        j_v = pf g; j_r = pf h; j_s = pf i; j_hash = pf j } with
+     | Some t -> "ok " ^ render_tx t ^ " " ^ hex_of_bytes (tx_hash keccak256 t)
+     | None -> "err")
   | ["quantity"; n] -> ascii_of_bytes (enc_quantity (n_of_string n))
   | ["dec_quantity"; maxlen; s] ->
     (* s: the JSON string content, hex-encoded ASCII *)
